@@ -87,6 +87,29 @@ class Ctx:
 SINGLE_CONFIG = {"C20", "C15", "C16", "C17", "C08", "C09", "C01", "C03", "C11"}
 
 
+def run_controls(ctx, module):
+    """run the module's rules on the witness-controls crate in a scratch context; each expected finding must appear"""
+    import witness
+    w = witness.load(ctx, "controls")
+    if w["facts"] is None or "witness_controls" in w["missing"]:
+        ctx.ob("CTL", "controls-crate", False, "CHECKER-BROKEN: the positive-control crate did not compile: %s"
+               % [e["message"] for e in w["errors"] if e["target"] == "witness_controls"][:3], what="controls-missing")
+        return
+    c2 = Ctx(ctx.prop, ctx.tier, ctx.seed)
+    c2._facts = w["facts"]
+    c2._wit = ctx._wit
+    expected = module.controls(c2, w["facts"])
+    fired = {(o["rule"], o["key"].split("/")[-1]) for o in c2.obs if not o["ok"]}
+    res = []
+    for (rule, what, desc) in expected:
+        ok = any(r == rule and wh == what for (r, wh) in fired)
+        res.append({"control": desc, "rule": rule, "fired": ok})
+        ctx.ob("CTL", "control[%s/%s]" % (rule, desc), ok,
+               "CHECKER-BROKEN: rule %s stayed silent on its positive control (%s); a rule that cannot fire proves nothing"
+               % (rule, desc), what="control-silent")
+    ctx.extra["positive_controls"] = res
+
+
 def load_known():
     p = os.path.join(VERIF, "known_findings.json")
     if not os.path.exists(p):
@@ -109,6 +132,9 @@ def run_check(prop, module, tier, seed, level, technique_note):
             for o in ctx.obs[n0:]:
                 o["instance"] = o["instance"] + " [release build]"
             ctx.extra["configurations"] = ["debug (debug-assertions, overflow-checks)", "release (both off)"]
+        # positive controls: every zero-count rule must fire on its deliberately-violating control
+        if hasattr(module, "controls"):
+            run_controls(ctx, module)
     except AnchorLost as e:
         ctx.ob("anchor", "lookup", False, "anchor lost: %s" % e, what="anchor-lost")
     except extract.ExtractError as e:
